@@ -5,6 +5,7 @@ import (
 	"fmt"
 	"os"
 	"sort"
+	"strings"
 
 	"verif/mc/internal/harness"
 )
@@ -24,6 +25,11 @@ func main() {
 		usage()
 	}
 	var code int
+	if len(os.Args) > 3 && os.Args[2] == "--replay" && os.Args[1] != "C01" && os.Args[1] != "C07" && strings.HasPrefix(os.Args[1], "C") {
+		code = replayGeneric(os.Args[1], os.Args[3])
+		harness.Cleanup()
+		os.Exit(code)
+	}
 	if supervised[os.Args[1]] && os.Getenv("VERIF_CHILD") == "" && !(len(os.Args) > 2 && os.Args[2] == "--replay") {
 		code = supervise(os.Args[1], os.Args[2:])
 	} else {
